@@ -396,8 +396,67 @@ def _norm(s):
     return re.sub(r"INVALID \d+", "INVALID", s)
 
 
+def strict(line):
+    """Is the answer to this line DETERMINED by its arguments and the documentation of the function called?  Only then is a
+    difference from the model / from the documented behaviour an alarm.  Everything that depends on a default nobody specifies
+    (a builder setter that is not called, CanonicalBlock::new(), Bundle::default(), the flags / hop limit new_std_payload_bundle picks,
+    whether new_primary_block aborts or not on a bad endpoint text, the return-value conventions of the block-level mutators) is an
+    OBSERVATION: run, compared and counted in the evidence, never a violation - no property speaks about it, and a maintainer may
+    change it freely."""
+    toks = line.split()
+    if toks and toks[0] in ("D", "R"):
+        toks = toks[1:]
+    if len(toks) < 3 or toks[0] != "API":
+        return False
+    k, sub = toks[1], toks[2]
+    if k == "BLK":
+        return sub in ("HOP", "AGE", "PREV", "PAYLOAD", "CANON") or (sub == "BUILD" and "-" not in toks[3:])
+    if k in ("PB", "BB"):
+        return "-" not in toks[2:]
+    return False
+
+
+def std_facts(line, out):
+    """new_std_payload_bundle: what its documentation promises (endpoints as given, CRC none, lifetime one hour, a payload block with
+    the data) and what C11 needs of a bundle 'built through the public builders' (it validates)"""
+    toks = line.split()
+    if toks and toks[0] in ("D", "R"):
+        toks = toks[1:]
+    t = genb.T(toks[2:])
+    s, d, data = genb.parse_eid(t), genb.parse_eid(t), t.b()
+    if d == ("NONE", 1, 0) or not out.startswith("OK "):
+        return None            # refusing the null destination (by a panic or otherwise) is not specified
+    o = out.split(" ")
+    b = genb.parse_bundle(genb.T(o[1:-1] if o[-1] == "VALID" else o[1:-2]))
+    p = b["p"]
+    if (p["dst"], p["src"]) != (d, s):
+        return "new_std_payload_bundle: endpoints are not the ones given"
+    if p["crc"] != ("N",) or any(c["crc"] != ("N",) for c in b["cs"]) or p["life"] != 3600000:
+        return "new_std_payload_bundle: documented defaults (no CRC, lifetime one hour) not kept"
+    pl = [c for c in b["cs"] if c["type"] == 1]
+    if len(pl) != 1 or pl[0]["data"] != ("DATA", data) or b["cs"][-1] is not pl[0]:
+        return "new_std_payload_bundle: payload block missing, not last or not carrying the data"
+    if not all(eid_valid(e) for e in (s, d)):
+        return None
+    if "INVALID" in out:
+        return "new_std_payload_bundle returns a bundle that does not validate"
+    return None
+
+
 def oracle(line, out):
-    """None = as promised (or not an API line)"""
+    """None = as promised, or an observation (not strict)"""
+    if not is_api(line):
+        return None
+    toks = line.split()
+    if toks[0] in ("D", "R"):
+        toks = toks[1:]
+    if toks[1] == "STD":
+        try:
+            return std_facts(line, out or "")
+        except (AssertionError, IndexError, ValueError, TypeError):
+            return "new_std_payload_bundle: unreadable answer %s" % (out or "")[:60]
+    if not strict(line):
+        return None
     try:
         exp = expected(line)
     except (AssertionError, IndexError, ValueError, TypeError):
@@ -407,6 +466,20 @@ def oracle(line, out):
     if out is None or _norm(out) != exp:
         return "the public API does not do what it documents: got %s, promised %s" % ((out or "")[:160], exp[:160])
     return None
+
+
+def observed_difference(line, out):
+    """for the evidence: does a non-strict line differ from the reading of the documentation?"""
+    try:
+        exp = expected(line)
+    except (AssertionError, IndexError, ValueError, TypeError):
+        return False
+    return exp is not None and (out is None or _norm(out) != exp)
+
+
+def same(line, io, mo):
+    """model / implementation differences on observation lines are not alarms"""
+    return is_api(line) and not strict(line)
 
 
 def is_api(line):
